@@ -467,10 +467,16 @@ DeepReportChange(m, s) ==
                         mh == HeadReport(m1, s)
                         ms == DeepReportChange(mh, Kid(s, 1))
                     IN [ms EXCEPT !.rv = [u |-> RMul(UtilOf(m, s), ms.rv.u), p |-> St[s].prong]]
-              [] sg \in {"Resumable", "Selectable"} ->
-                    \* deepReportChangeSelectable takes resumable-or-first, not select() (D12)
+              [] sg = "Resumable" ->
                     LET r  == IF m.res[c] # 0 THEN m.res[c] ELSE 1
                         m1 == [m EXCEPT !.req[c] = r]
+                        mh == HeadReport(m1, s)
+                        ms == DeepReportChange(mh, Kid(s, r))
+                    IN [ms EXCEPT !.rv = [u |-> RMul(UtilOf(m, s), ms.rv.u), p |-> St[s].prong]]
+              [] sg = "Selectable" ->
+                    \* the region would activate what its select() names
+                    LET r  == SelectOf(m, s)
+                        m1 == Log(FireReport([m EXCEPT !.req[c] = r], s, "select"), <<"sel", s, r>>)
                         mh == HeadReport(m1, s)
                         ms == DeepReportChange(mh, Kid(s, r))
                     IN [ms EXCEPT !.rv = [u |-> RMul(UtilOf(m, s), ms.rv.u), p |-> St[s].prong]]
@@ -591,6 +597,8 @@ ApplyRequest(m, r, i) ==
     ELSE IF r[2] = 1 THEN DeepRequest(m, 1, rq)
     ELSE DeepForwardActive(RequestImmediate(m, r[2]), 1, rq)
 
+RECURSIVE ApplyAllFrom(_, _, _, _)
+ApplyAllFrom(m, rs, i, off) == IF i > Len(rs) THEN m ELSE ApplyAllFrom(ApplyRequest(m, rs[i], off + i), rs, i + 1, off)
 RECURSIVE ApplyAll(_, _, _)
 ApplyAll(m, rs, i) == IF i > Len(rs) THEN m ELSE ApplyAll(ApplyRequest(m, rs[i], i), rs, i + 1)
 
@@ -784,7 +792,9 @@ ApprovedByEntryGuards(m) == DeepEntryGuard(SnapshotPending(NewControl(m)), 1)
 RECURSIVE Rounds(_, _, _, _)
 Rounds(m, n, b, initial) ==
     IF n >= Cfg.limit \/ Len(m.q) = 0 THEN m ELSE
-    LET m1 == ApplyAll(m, m.q, 1) IN
+    \* a request is known to the transition history by its position in the step's whole list of approved requests:
+    \* the requests of this round follow those of the rounds approved before it
+    LET m1 == ApplyAllFrom(m, m.q, 1, Len(m.cur)) IN
     IF RegDiffers(m1, b) THEN
         LET m2 == [m1 EXCEPT !.pend = m1.q, !.q = <<>>]
             m3 == IF initial THEN ApprovedByEntryGuards(m2) ELSE ApprovedByGuards(m2)
@@ -841,6 +851,15 @@ Reset(m) ==
 
 RECURSIVE DeepUpdate(_, _, _), WideUpdateO(_, _, _, _, _)
 
+\* D15 (open finding): control._taskStatus is one variable per region scope.  Where the sub-states run BEFORE their
+\* head (postUpdate; preReact / react bottom-up; postReact top-down) a plain sub-state's succeed() / fail() is still in
+\* it when the head's method returns, so the head is taken to have succeeded / failed itself: the region's plan is not
+\* advanced and the status is passed outward.  Intended: the head's status is what the head's own method set.
+BeforeHead(m, s) ==
+    IF m.ts = TSNone \/ ~HasUser(s) THEN m
+    ELSE IF "TaskStatusLeaks" \in m.dev THEN [m EXCEPT !.notes = @ \cup {"D15"}]
+    ELSE [m EXCEPT !.ts = TSNone]
+
 \* phase \in UpdateMethods; result status in m.rv
 WideUpdateO(m, s, phase, i, acc) ==
     IF i > St[s].width THEN [m EXCEPT !.rv = acc]
@@ -863,7 +882,7 @@ DeepUpdate(m, s, phase) ==
        ELSE
             LET m1 == Sub(mi)
                 m2 == [m1 EXCEPT !.sst[r] = TSOr(@, m1.rv)]
-                mh == Fire(m2, s, phase)
+                mh == Fire(BeforeHead(m2, s), s, phase)
                 h  == IF HasUser(s) THEN mh.ts ELSE TSNone      \* the EmptyT head returns TaskStatus{}
                 m3 == [mh EXCEPT !.hst[r] = TSOr(@, h)]
             IN [ScopeOut(m3, m) EXCEPT !.rv = h]
@@ -896,7 +915,7 @@ DeepReact(m, s, phase) ==
             ELSE
                 LET m1 == Sub(mi)    h == m1.rv
                     m2 == [m1 EXCEPT !.sst[r] = TSOr(@, h)]
-                    m3 == IF ~m2.consumed THEN LET mx == HeadCb(m2) IN [mx EXCEPT !.hst[r] = TSOr(@, mx.rv)] ELSE m2
+                    m3 == IF ~m2.consumed THEN LET mx == HeadCb(BeforeHead(m2, s)) IN [mx EXCEPT !.hst[r] = TSOr(@, mx.rv)] ELSE m2
                 IN [ScopeOut(m3, m) EXCEPT !.rv = h]
        ELSE
             \* postReact: second part's status is returned (NONE when it did not run)
@@ -910,7 +929,7 @@ DeepReact(m, s, phase) ==
                 LET m1 == Sub(mi)
                     m2 == [m1 EXCEPT !.sst[r] = TSOr(@, m1.rv)]
                 IN IF ~m2.consumed
-                   THEN LET mx == HeadCb(m2)  h == mx.rv IN [ScopeOut([mx EXCEPT !.hst[r] = TSOr(@, h)], m) EXCEPT !.rv = h]
+                   THEN LET mx == HeadCb(BeforeHead(m2, s))  h == mx.rv IN [ScopeOut([mx EXCEPT !.hst[r] = TSOr(@, h)], m) EXCEPT !.rv = h]
                    ELSE [ScopeOut(m2, m) EXCEPT !.rv = TSNone]
 
 RECURSIVE DeepQuery(_, _), WideQueryO(_, _, _)
